@@ -27,6 +27,27 @@ HCLS, ECLS = "_HtmlTreeBuilder", "_XhtmlTextExtractor"
 CONTRACTED = {"__init__", "handle_starttag", "handle_endtag", "handle_data", "handle_comment"}
 
 
+def canonical(m, e, _depth=0):
+    """Dotted origin of a name / attribute chain through the module's import table and module-level aliases
+    (`from html.parser import HTMLParser`, `import html.parser`, `import html.parser as hp`, `from html import parser`,
+    `Base = HTMLParser` all give 'html.parser.HTMLParser'); '' when it is not a plain chain."""
+    d = dotted(e)
+    if not d:
+        return ""
+    head, _, rest = d.partition(".")
+    if head in m.imports:
+        origin = m.imports[head]
+        return origin + ("." + rest if rest else "")
+    if head in m.assigns and _depth < 4 and head not in m.classes:
+        inner = canonical(m, m.assigns[head], _depth + 1)
+        return inner + ("." + rest if rest and inner else "") if inner else d
+    return d
+
+
+def is_library_parser(m, e):
+    return canonical(m, e) == "html.parser.HTMLParser"
+
+
 def library_names():
     """Every attribute name html.parser.HTMLParser (class or instance) owns: a subclass that binds one of them changes the
     tokeniser the proof assumes.  Taken from the interpreter's own html.parser plus names newer CPython versions added."""
@@ -73,11 +94,11 @@ def tokeniser_configuration(repo, tier):
             continue
         b = class_bindings(node)
         shadow = sorted(f"{n} (line {ln})" for n, ln in b.items() if (n in lib or n == "?") and n not in CONTRACTED)
-        base_ok = [ast.unparse(x) for x in node.bases] == ["HTMLParser"] and m.imports.get("HTMLParser") == "html.parser.HTMLParser" \
+        base_ok = len(node.bases) == 1 and is_library_parser(m, node.bases[0]) \
             and not node.keywords and not node.decorator_list
         # nothing at module level patches the library either (HTMLParser.X = ..., html.parser.X = ...)
         patched = sorted({f"line {n.lineno}" for n in ast.walk(m.tree) if isinstance(n, ast.Attribute) and isinstance(n.ctx, ast.Store)
-                          and dotted(n.value) in ("HTMLParser", "html.parser", "html.parser.HTMLParser", cls)})
+                          and (canonical(m, n.value) in ("html.parser", "html.parser.HTMLParser") or dotted(n.value) == cls)})
         obls.append(ground_obligation(oid, base_ok and not shadow and not patched,
                                       f"base HTMLParser unmodified: {base_ok}; rebinds library attributes: {shadow}; patches: {patched}", rel, definite=False))
     return {"obligations": obls, "functions": fns}
